@@ -36,6 +36,16 @@ from .value_from_ast import value_from_ast
 Path = List[Union[int, str]]
 
 
+def _dumps(value: Any) -> str:
+    # Used in error messages only: a value json cannot print (nested too
+    # deeply, integers beyond the str conversion limit) must not turn a
+    # rejection into a crash.
+    try:
+        return json.dumps(value, sort_keys=True)
+    except (RecursionError, TypeError, ValueError):
+        return "<%s>" % type(value).__name__
+
+
 def _path(path):
     if not path:
         return []
@@ -403,7 +413,7 @@ def coerce_variable_values(  # noqa: C901
                                 'Variable "$%s" got invalid value %s (%s)'
                                 % (
                                     name,
-                                    json.dumps(value, sort_keys=True),
+                                    _dumps(value),
                                     child_err,
                                 ),
                                 [var_def],
@@ -413,7 +423,17 @@ def coerce_variable_values(  # noqa: C901
                     errors.append(
                         VariableCoercionError(
                             'Variable "$%s" got invalid value %s (%s)'
-                            % (name, json.dumps(value, sort_keys=True), err),
+                            % (name, _dumps(value), err),
+                            [var_def],
+                        )
+                    )
+                except RecursionError:
+                    # A value nested deeper than the interpreter can follow
+                    # (recursive input objects) is an invalid value, not a crash.
+                    errors.append(
+                        VariableCoercionError(
+                            'Variable "$%s" got invalid value (nested too deeply)'
+                            % name,
                             [var_def],
                         )
                     )
